@@ -208,6 +208,12 @@ func genC05(tier string, r *rng) {
 		if oi%4 == 0 || tier == "thorough" {
 			emit("stdinfile", hx(der))
 			emit("stdinfile", hxs(base64.StdEncoding.EncodeToString(der)))
+			// standard input that is a regular file read from a position past its start (`{ read hdr; decipher; } < file`)
+			emit("stdin", "offset", hx(der))
+			emit("stdin", "offset", hxs(base64.StdEncoding.EncodeToString(der)+"\n"))
+			if label != "" {
+				emit("stdin", "offset", hx(pem.EncodeToMemory(&pem.Block{Type: label, Bytes: der})))
+			}
 		}
 	}
 }
